@@ -20,15 +20,21 @@ class LzBufSafe (ω : Type) [LzBuf ω] where
 
 /-! ## circular window -/
 
-/-- light invariant of `LzCircularBuffer`: a non-zero dictionary size and the
-cursor inside the allocated part of the buffer -/
-def CircSafe (w : Circ) : Prop := 0 < w.dictSize ∧ w.cursor ≤ w.buf.size
+/-- invariant of `LzCircularBuffer`: a non-zero dictionary size, the cursor inside the
+allocated part of the buffer and inside the dictionary, and the memory bounds: the lazily
+grown buffer never exceeds the dictionary size, the number of bytes produced, or the
+memory limit -/
+def CircSafe (w : Circ) : Prop :=
+  0 < w.dictSize ∧ w.cursor ≤ w.buf.size ∧ w.cursor < w.dictSize ∧ w.buf.size ≤ w.dictSize ∧
+    w.buf.size ≤ w.len ∧ w.buf.size ≤ w.memlimit
 
-theorem CircSafe_fromStream {d m : Nat} (h : 0 < d) : CircSafe (Circ.fromStream d m) := ⟨h, Nat.le_refl _⟩
+theorem CircSafe_fromStream {d m : Nat} (h : 0 < d) : CircSafe (Circ.fromStream d m) :=
+  ⟨h, Nat.le_refl _, h, Nat.zero_le _, Nat.zero_le _, Nat.zero_le _⟩
 
 theorem Circ.set_safe (w : Circ) (idx : Nat) (v : UInt8) :
     ESafe (fun w' => w'.dictSize = w.dictSize ∧ w'.cursor = w.cursor ∧ w'.len = w.len ∧
-        w'.memlimit = w.memlimit ∧ idx < w'.buf.size)
+        w'.memlimit = w.memlimit ∧ idx < w'.buf.size ∧
+        (w'.buf.size = w.buf.size ∨ (w'.buf.size = idx + 1 ∧ idx + 1 ≤ w.memlimit)))
       (w.set idx v) := by
   unfold Circ.set
   simp only
@@ -65,21 +71,18 @@ theorem Circ.lastN_safe (w : Circ) (d : Nat) (h : CircSafe w) :
       intro _ _; trivial
 
 theorem Circ.appendLiteral_safe (w : Circ) (b : UInt8) (h : CircSafe w) :
-    MSafe (fun w' => CircSafe w' ∧ w'.dictSize = w.dictSize) (w.appendLiteral b) := by
+    MSafe (fun w' => CircSafe w' ∧ w'.dictSize = w.dictSize ∧ w'.memlimit = w.memlimit ∧
+        w'.len = w.len + 1) (w.appendLiteral b) := by
   unfold Circ.appendLiteral
   refine MSafe.bind (MSafe.liftE (Circ.set_safe w w.cursor b)) ?_
-  rintro w1 ⟨h1, h2, _, _, h5⟩
+  rintro w1 ⟨h1, h2, h3, h4, h5, h6⟩
+  obtain ⟨g1, g2, g3, g4, g5, g6⟩ := h
   simp only
   split
   · refine MSafe.bind (writeAll_safe _) ?_
     intro _ _
-    simp only [MSafe_pure, CircSafe]
-    refine ⟨⟨?_, Nat.zero_le _⟩, h1⟩
-    rw [h1]; exact h.1
-  · simp only [MSafe_pure, CircSafe]
-    refine ⟨⟨?_, ?_⟩, h1⟩
-    · rw [h1]; exact h.1
-    · omega
+    refine MSafe_pure.mpr ⟨⟨?_, ?_, ?_, ?_, ?_, ?_⟩, h1, h4, ?_⟩ <;> dsimp only <;> omega
+  · refine MSafe_pure.mpr ⟨⟨?_, ?_, ?_, ?_, ?_, ?_⟩, h1, h4, ?_⟩ <;> dsimp only <;> omega
 
 theorem Circ.copyLoop_safe : ∀ (n : Nat) (w : Circ) (off : Nat), CircSafe w →
     MSafe CircSafe (Circ.copyLoop n w off)
@@ -107,7 +110,7 @@ theorem Circ.finish_safe (w : Circ) (h : CircSafe w) : MSafe (fun _ => True) w.f
   split
   · split
     · exact MSafe.bind (writeAll_safe _) (fun _ _ => flushSink_safe)
-    · exact absurd h.2 (by assumption)
+    · exact absurd h.2.1 (by assumption)
   · exact flushSink_safe
 
 instance : LzBufSafe Circ where
@@ -135,45 +138,66 @@ theorem Accum.lastN_safe (w : Accum) (d : Nat) (hd : 0 < d) : ESafe (fun _ => Tr
     have : w.buf.size - d < w.buf.size := by omega
     simp [this]
 
-theorem Accum.appendLiteral_safe (w : Accum) (b : UInt8) :
-    MSafe (fun _ => True) (w.appendLiteral b) := by
+/-- invariant of `LzAccumBuffer`: the buffer holds exactly the bytes produced since the
+last `reset` -/
+def AccumInv (w : Accum) : Prop := w.buf.size = w.len
+
+theorem AccumInv_fromStream (m : Nat) : AccumInv (Accum.fromStream m) := rfl
+
+theorem AccumInv_appendBytes {w : Accum} (h : AccumInv w) (bs : Bytes) : AccumInv (w.appendBytes bs) := by
+  unfold AccumInv Accum.appendBytes at *
+  simp; omega
+
+theorem Accum.appendLiteral_safe (w : Accum) (b : UInt8) (h : AccumInv w) :
+    MSafe AccumInv (w.appendLiteral b) := by
   unfold Accum.appendLiteral
   simp only
-  split <;> simp
+  split
+  · simp
+  · refine MSafe_pure.mpr ?_
+    unfold AccumInv at *
+    simp; omega
 
 theorem Accum.copyLoop_safe : ∀ (n : Nat) (buf : Array UInt8) (off : Nat), off < buf.size →
-    ESafe (fun _ => True) (Accum.copyLoop n buf off)
-  | 0, _, _, _ => trivial
+    ESafe (fun b => b.size = buf.size + n) (Accum.copyLoop n buf off)
+  | 0, _, _, _ => rfl
   | n+1, buf, off, h => by
     simp only [Accum.copyLoop]
     have : buf[off]? = some buf[off] := by simp [h]
     rw [this]
-    exact Accum.copyLoop_safe n _ _ (by simp; omega)
+    refine (Accum.copyLoop_safe n _ _ (by simp; omega)).mono ?_
+    intro b hb
+    simp at hb
+    omega
 
-theorem Accum.appendLz_safe (w : Accum) (l d : Nat) (hd : 0 < d) :
-    MSafe (fun _ => True) (w.appendLz l d) := by
+theorem Accum.appendLz_safe (w : Accum) (l d : Nat) (hd : 0 < d) (h : AccumInv w) :
+    MSafe AccumInv (w.appendLz l d) := by
   unfold Accum.appendLz
   split
   · simp
   · refine MSafe.bind (MSafe.liftE (Accum.copyLoop_safe l w.buf _ (by omega))) ?_
-    intro _ _
-    simp
+    intro b hb
+    refine MSafe_pure.mpr ?_
+    unfold AccumInv at *
+    dsimp only
+    omega
 
-theorem Accum.reset_safe (w : Accum) : MSafe (fun _ => True) w.reset := by
+theorem Accum.reset_safe (w : Accum) : MSafe AccumInv w.reset := by
   unfold Accum.reset
   refine MSafe.bind (writeAll_safe _) ?_
-  intro _ _; simp
+  intro _ _
+  exact MSafe_pure.mpr rfl
 
 theorem Accum.finish_safe (w : Accum) : MSafe (fun _ => True) w.finish := by
   unfold Accum.finish
   exact MSafe.bind (writeAll_safe _) (fun _ _ => flushSink_safe)
 
 instance : LzBufSafe Accum where
-  inv := fun _ => True
+  inv := AccumInv
   lastOr_safe w b _ := Accum.lastOr_safe w b
   lastN_safe w d _ hd := Accum.lastN_safe w d hd
-  appendLiteral_safe w b _ := Accum.appendLiteral_safe w b
-  appendLz_safe w l d _ hd := Accum.appendLz_safe w l d hd
+  appendLiteral_safe w b h := Accum.appendLiteral_safe w b h
+  appendLz_safe w l d h hd := Accum.appendLz_safe w l d hd h
 
 /-- with `dist = 0` the accumulating window's `last_n` indexes `buf[len]`: a panic.
 (The decoder never does this: it passes `rep0 + 1`.) -/
